@@ -54,7 +54,7 @@ LEVEL_NOTE = ('Trusted: NumPy long double, the reference vlib/ref/stencils.py '
               'test is assumed for the step "matrix decides all inputs"; one '
               'generic data vector per operator guards it.')
 DESIGN_REF = 'DESIGN.md section 5, C13'
-BUDGET = {'quick': 1600, 'thorough': 12000}
+BUDGET = {'quick': 3000, 'thorough': 20000}
 K_BASE = 4
 TOLERANCES = {
     'matrix': '|got - ref| <= (4 + 2*ndim) * eps(dtype) * (sum_j |ref_ij| '
